@@ -19,7 +19,7 @@ PLAN = {
     "quick": {"hashseeds": 12, "shards": 2, "generated": 240, "skip": ["1gid.cif.gz"], "cli_all_variants": False,
               "timeout": 600, "light_hashseeds": 16, "light_max_cost": 150_000},
     "thorough": {"hashseeds": 48, "shards": 4, "generated": 4000, "skip": [], "cli_all_variants": True,
-                 "timeout": 3000, "light_hashseeds": 80, "light_max_cost": 150_000},
+                 "timeout": 5400, "light_hashseeds": 80, "light_max_cost": 150_000},
 }
 
 ASSUMPTIONS = [
